@@ -81,6 +81,15 @@ class Stepper:
                     env[tg.id] = subst(s.value, env)
                 else:
                     self.effects.append(norm(subst(s, env)))
+            elif isinstance(s, ast.AugAssign):
+                if isinstance(s.target, ast.Name) and s.target.id not in self.opaque:
+                    cur = env.get(s.target.id, ast.Name(id=s.target.id, ctx=ast.Load()))
+                    env[s.target.id] = ast.BinOp(left=cur, op=s.op, right=subst(s.value, env))
+                else:
+                    import copy as _copy
+                    s2 = _copy.deepcopy(s)
+                    s2.value = subst(s.value, env)
+                    self.effects.append(norm(s2))
             elif isinstance(s, ast.Expr):
                 if not isinstance(s.value, ast.Constant):
                     self.effects.append(norm(subst(s.value, env)))
